@@ -677,7 +677,48 @@ func CheckC09(c *C09Case, st *Stats) error {
 	if mutatedRecvOrResult && (spare || grown || emptyArg || c.ObjectMode) {
 		st.MarkNonTrivial()
 	}
+	// After this history, every derivation must give what it gives on a freshly built container with
+	// the same content (anything memoised inside the receiver would show as a difference).
+	rs, err1 := Snap(r)
+	as, err2 := Snap(a)
+	if err1 != nil || err2 != nil {
+		return errf("participants inconsistent after the mutations: %v %v", err1, err2)
+	}
+	twinR, twinA := Build(rs), Build(as)
+	for _, d := range c.Derivs {
+		if d.Name == "IndexOf" || d.Name == "Contains" {
+			continue // identity-based: the twin holds distinct copies where the receiver may hold one instance twice
+		}
+		var got, want any
+		p, panicked := catch(func() {
+			if c.ObjectMode {
+				got = deriveObject(d, r.(at.Object), a.(at.Object))
+				want = deriveObject(d, twinR.(at.Object), twinA.(at.Object))
+			} else {
+				got = deriveList(d, r.(at.List), a.(at.List))
+				want = deriveList(d, twinR.(at.List), twinA.(at.List))
+			}
+		})
+		if panicked {
+			return errf("%s panicked after the mutation history: %v", d.Name, p)
+		}
+		if ac, ok := got.(argumentChanged); ok {
+			return errf("%s", ac.what)
+		}
+		if g, w := c09fp(d.Name, got), c09fp(d.Name, want); g != w {
+			return errf("after the mutation history %s gives %s, on a freshly built container with the same content it gives %s\n receiver now: %s", d.Name, clip(g, 300), clip(w, 300), rs.Show())
+		}
+		st.Count("rederived." + d.Name)
+	}
 	return nil
+}
+
+// c09fp fingerprints a derivation result by content (order-insensitively where the library's order is random).
+func c09fp(name string, x any) string {
+	if s, ok := x.(string); ok && (name == "String" || name == "FormatString") {
+		return fingerprintText(s)
+	}
+	return fingerprint(name, x)
 }
 
 func init() {
